@@ -9,6 +9,7 @@ package c20
 import (
 	"bytes"
 	"encoding/base64"
+	"encoding/hex"
 	"encoding/json"
 	"fmt"
 	"log"
@@ -55,6 +56,7 @@ type Tape struct {
 	Defects  []world.Defect   `json:"defects,omitempty"`
 	Subkey   bool             `json:"subkey,omitempty"`
 	S2KAll   bool             `json:"s2k_all,omitempty"` // the KDC sends s2kparams for every etype
+	PAC      string           `json:"pac,omitempty"`     // service/http: the ticket carries a PAC (valid | flipped | wrongkey | sigflipped | truncated | nosig | noinfo)
 }
 
 type eng struct{}
@@ -131,8 +133,9 @@ func enumerate(tier string) []Tape {
 func meta() core.Meta {
 	return core.Meta{
 		Engine: "c20", Property: "C20", Level: "exploration",
-		Rule:       "case = one run with the taint monitor armed: (file) a secret-bearing keytab or credential cache torn at every offset or bit-rotted and parsed; (client) login and service-ticket request with password or keytab credentials per etype under one reply perturbation or network fault, followed by every diagnostic surface (Client.Print/Diagnostics, Credentials/Config/Keytab JSON, Credentials gob, client log, returned errors, bytes sent); (service) verification of a valid or defective AP-REQ with a capturing logger, followed by re-encoding of what the library decrypted (APReq/Ticket Marshal, credentials JSON/gob); (http) the same through the SPNEGO wrapper with session store; distinct = distinct (scenario, file/etype/credential, fault); non-trivial = at least one secret was live in the process and at least one sink was scanned",
+		Rule:       "case = one run with the taint monitor armed: (file) a secret-bearing keytab or credential cache torn at every offset or bit-rotted and parsed; (client) login and service-ticket request with password or keytab credentials per etype under one reply perturbation or network fault, followed by every diagnostic surface (Client.Print/Diagnostics, Credentials/Config/Keytab JSON, Credentials gob, client log, returned errors, bytes sent); (service) verification of a valid or defective AP-REQ with a capturing logger, followed by re-encoding of what the library decrypted (APReq/Ticket Marshal, credentials JSON/gob); (http) the same through the SPNEGO wrapper with session store; seeded cases draw fresh secrets and combine up to two reply perturbations with a network fault (client) resp. up to two AP-REQ defects with a signed, damaged or missing PAC (service, http); distinct = distinct (scenario, file/etype/credential, fault); non-trivial = at least one secret was live in the process and at least one sink was scanned",
 		SweepQuick: len(enumerate("quick")), SweepThorough: len(enumerate("thorough")),
+		SeededQuick: 1500, SeededThorough: 40000,
 		WorkloadProbes: []string{"error-path-reached", "file-torn", "decrypted-object-reencoded", "log-lines-scanned", "wire-bytes-scanned", "subkey-live", "session-key-live", "password-live"},
 		Components: map[string]string{
 			"client (Login, GetServiceTicket, Print, Diagnostics, logger), credentials (JSON, gob), config JSON, keytab (Unmarshal, JSON), CCache.Unmarshal, service.VerifyAPREQ with logger, spnego wrapper, APReq/Ticket Marshal after decryption": "real",
@@ -153,8 +156,54 @@ func gen(caseID, tier string) (json.RawMessage, error) {
 	if err != nil {
 		return nil, err
 	}
+	if kind == "seed" {
+		// seeded scenarios: fresh secrets (they derive from the run seed) under combinations of the
+		// faults that the sweep applies one at a time
+		r := core.NewRng(n).Derive("c20seeded")
+		tp := Tape{Engine: "c20", RunSeed: n >> 1, Etype: etypes[r.Intn(len(etypes))]}
+		switch x := r.Intn(10); {
+		case x < 1:
+			tp.Scenario, tp.File, tp.Mode = "file", r.Pick("keytab-user", "keytab-service", "ccache"), r.Pick("prefix", "subst")
+			tp.From, tp.Count = r.Intn(2400), 150
+		case x < 5:
+			tp.Scenario, tp.Cred, tp.Preauth, tp.S2KAll = "client", r.Pick("keytab", "password"), r.Chance(1, 2), r.Chance(1, 5)
+			if tp.Cred == "password" && (tp.Etype == 19 || tp.Etype == 20) && r.Chance(2, 3) {
+				tp.Etype = r.PickInt(17, 18, 23, 16)
+			}
+			for k := r.Intn(3); k > 0; k-- {
+				p := clientPerturbs[1+r.Intn(len(clientPerturbs)-1)]
+				dup := false
+				for _, q := range tp.Perturb {
+					dup = dup || q.Kind == p.Kind
+				}
+				if !dup {
+					tp.Perturb = append(tp.Perturb, p)
+				}
+			}
+			if r.Chance(1, 3) {
+				nn := clientNets[1+r.Intn(len(clientNets)-1)]
+				tp.Net, tp.NetArg = nn.k, nn.a
+			}
+		default:
+			tp.Scenario, tp.Subkey = r.Pick("service", "http"), r.Chance(1, 2)
+			for k := r.Intn(3); k > 0; k-- {
+				d := serviceDefects[1+r.Intn(len(serviceDefects)-1)]
+				dup := false
+				for _, q := range tp.Defects {
+					dup = dup || q.Kind == d
+				}
+				if !dup {
+					tp.Defects = append(tp.Defects, world.Defect{Kind: d, Arg: int64(r.PickInt(-1_000_000_000, -1, 1, 1_000_000_000))})
+				}
+			}
+			if r.Chance(1, 2) {
+				tp.PAC = r.Pick("valid", "valid", "flipped", "wrongkey", "sigflipped", "truncated", "nosig", "noinfo")
+			}
+		}
+		return core.MustJSON(tp), nil
+	}
 	if kind != "sweep" {
-		return nil, fmt.Errorf("c20 enumerates scenarios; no seeded cases")
+		return nil, fmt.Errorf("c20: unknown case kind")
 	}
 	cs := enumerate(tier)
 	if int(n) >= len(cs) {
@@ -236,7 +285,13 @@ func run(tapeJSON json.RawMessage, res *core.Result) {
 	for _, d := range tp.Defects {
 		fault += "+" + d.Kind
 	}
-	res.Class = fmt.Sprintf("%s|%s%s|%d|%s|%s|%d", tp.Scenario, tp.File, tp.Cred, tp.Etype, tp.Mode, fault, tp.From)
+	if tp.PAC != "" {
+		fault += "+pac-" + tp.PAC
+	}
+	if tp.S2KAll {
+		fault += "+s2kall"
+	}
+	res.Class = fmt.Sprintf("%s|%s%s|%d|%s|%s|%d|%v%v", tp.Scenario, tp.File, tp.Cred, tp.Etype, tp.Mode, fault, tp.From, tp.Preauth, tp.Subkey)
 }
 
 // ---------------------------------------------------------------- files
@@ -497,6 +552,10 @@ func runService(tp *Tape, m *monitor) {
 	simrt.SleepExact(int64(time.Hour) + 333)
 	service.GetReplayCache(5 * time.Minute)
 	minter := &world.Minter{Seed: tp.RunSeed, Kt: ktm}
+	if tp.PAC != "" {
+		pacSample, _ := hex.DecodeString(testdata.MarshaledPAC_AD_WIN2K_PAC)
+		minter.PACFor = world.StdPACFor(pacSample, tp.RunSeed)
+	}
 	rng := core.NewRng(tp.RunSeed).Derive("c20svc")
 	replay := false
 	var defects []world.Defect
@@ -508,7 +567,7 @@ func runService(tp *Tape, m *monitor) {
 		}
 	}
 	s := time.Now().UTC().Truncate(time.Second).Add(2 * time.Second)
-	spec := world.ReqSpec{Client: "alice", Svc: "HTTP/host.sim.test", Realm: "SIM.TEST", Kvno: 2, Etype: tp.Etype, KvnoField: true, StartTime: true, Cksum: true, Subkey: tp.Subkey, Defects: defects}
+	spec := world.ReqSpec{Client: "alice", Svc: "HTTP/host.sim.test", Realm: "SIM.TEST", Kvno: 2, Etype: tp.Etype, KvnoField: true, StartTime: true, Cksum: true, Subkey: tp.Subkey, Defects: defects, PAC: tp.PAC}
 	tr, err := minter.Mint(spec, s, 5*time.Minute, rng)
 	if err != nil {
 		m.res.Verdict, m.res.Harness = "invalid", "mint: "+err.Error()
